@@ -1168,6 +1168,24 @@ def rule_rec(run, prog):
                    reason=BOUNDED_CYCLES[key])
             continue
         guarded = _guarded_by_recursion_handler(prog, cg, set(comp))
+        # a cycle made only of functions the inventory does not know (a recursive helper extracted from, or shared by,
+        # known functions) is reported under the known functions that enter it: `skip_nest` delegating its recursion to a
+        # new `_skip_nest_towards` is still the recursion of skip_nest
+        try:
+            from ..inline import load_inventory
+            inv = load_inventory()
+        except Exception:
+            inv = None
+        if inv is not None and all(k not in inv for k in comp):
+            entries = sorted({c.caller.key for k in comp for c in cg.sites.get(k, []) if c.caller.key not in comp and c.caller.key in inv})
+            if entries:
+                for ek in entries:
+                    efn = prog.fn_by_key[ek]
+                    run.ob("R-5.3", f"{ek.split('::')[0]}::{ek.split('::')[1]}::cycle", guarded,
+                           f"recursion {label} (entered from {efn.qual}) is proportional to the input (nesting depth / run length) and "
+                           f"not guarded by a RecursionError handler: RecursionError traceback on a long enough input",
+                           efn.node, members=list(comp))
+                continue
         run.ob("R-5.3", anchor, guarded,
                f"recursion {label} is proportional to the input (nesting depth / run length) and not guarded by a "
                f"RecursionError handler: RecursionError traceback on a long enough input", node, members=list(comp))
@@ -1834,6 +1852,41 @@ def _flag_truth(e, state: Dict[str, bool]) -> Optional[bool]:
     return None
 
 
+_FLAG_CP: Dict[int, Dict[int, tuple]] = {}
+
+
+def _flag_state_at(g, fn: Fn, a: int, flags) -> tuple:
+    """What is known about the boolean flags on entry to node *a* on every path from the function entry (forward constant
+    propagation; a flag with different values on two incoming paths, or never assigned yet, is unknown)."""
+    cp = _FLAG_CP.get(id(g))
+    if cp is None:
+        TOP = object()
+        inn: Dict[int, Optional[Dict[str, object]]] = {n.id: None for n in g.nodes}      # None = not reached yet
+        inn[g.entry] = {}
+        work = [g.entry]
+        while work:
+            n = work.pop()
+            st = dict(inn[n] or {})
+            node = g.nodes[n]
+            a_ = node.ast
+            if node.kind == "stmt" and isinstance(a_, ast.Assign) and len(a_.targets) == 1 and isinstance(a_.targets[0], ast.Name) \
+                    and a_.targets[0].id in flags and isinstance(a_.value, ast.Constant):
+                st[a_.targets[0].id] = bool(a_.value.value)
+            for m, lab in g.succ[n]:
+                cur = inn[m]
+                if cur is None:
+                    inn[m] = dict(st)
+                    work.append(m)
+                else:
+                    new_ = {k: v for k, v in cur.items() if k in st and st[k] == v}
+                    if new_ != cur:
+                        inn[m] = new_
+                        work.append(m)
+        cp = {n: tuple(sorted((k, v) for k, v in (d or {}).items() if isinstance(v, bool))) for n, d in inn.items()}
+        _FLAG_CP[id(g)] = cp
+    return cp.get(a, ())
+
+
 def flag_can_reach(g, fn: Fn, a: int, b: int, avoid=frozenset(), follow_exc=True, edge_filter=None) -> bool:
     """CFG.can_reach made sensitive to the values of the function's boolean flags (locals only ever assigned
     True / False: loop-exit flags, the inliner's __inl_done markers): an edge out of a test whose outcome is decided by
@@ -1866,7 +1919,7 @@ def flag_can_reach(g, fn: Fn, a: int, b: int, avoid=frozenset(), follow_exc=True
                 continue
             yield m
 
-    s0 = effect(a, ())
+    s0 = effect(a, _flag_state_at(g, fn, a, flags))
     todo = [(m, s0) for m in out_edges(a, s0)]
     seen = set()
     while todo:
@@ -1907,6 +1960,8 @@ def _run_rules_result_names(fn: Fn):
                     rets.add(t.id)
                 elif v.slice.value == 1:
                     counts.setdefault(t.id, []).append((n, None))
+    # `outcome[0]` of a local holding the whole result is a spelling of `ret` too (pseudo-name "outcome[0]")
+    rets |= {f"{w}[0]" for w in whole}
     return rets, counts
 
 
@@ -1957,7 +2012,15 @@ def _positive_count(fn: Fn, g, e, at_node, _seen=None) -> bool:
                     sd = _truthy_side(tn.ast, rets if ret_name is None else {ret_name})
                     if sd is not None:
                         tests[tn.id] = sd
-            if not tests or d == at_node or not _only_through(g, d, at_node, tests):
+            # the success test may sit between the call and the statement that picks the count out of the result
+            # (`outcome = self.run_rules(...); if outcome[0] is not True: continue; jump = outcome[1]`): paths are
+            # measured from where the result was obtained
+            starts = {d}
+            if isinstance(a, ast.Assign) and isinstance(a.value, ast.Subscript) and isinstance(a.value.value, ast.Name):
+                starts = {x for x in RD.get(d, {}).get(a.value.value.id, set()) if x >= 0} or {d}
+            elif isinstance(a, ast.Assign) and isinstance(a.value, ast.Name):
+                starts = {x for x in RD.get(d, {}).get(a.value.id, set()) if x >= 0} or {d}
+            if not tests or d == at_node or any(s0 == at_node or not _only_through(g, s0, at_node, tests, fn) for s0 in starts):
                 return False
         elif dn.kind == "stmt" and isinstance(a, ast.Assign) and len(a.targets) == 1 and isinstance(a.targets[0], ast.Name):
             if not _positive_count(fn, g, a.value, d, seen):
@@ -2002,13 +2065,24 @@ def _positive_count(fn: Fn, g, e, at_node, _seen=None) -> bool:
 _RD: Dict[int, dict] = {}
 
 
-def _only_through(g, a, b, tests) -> bool:
-    """Every path a -> b traverses the establishing edge of one of *tests* ({test node: 'T'|'F'})."""
-    return not g.can_reach(a, b, follow_exc=False, edge_filter=lambda n_, m_, lab: not (n_ in tests and lab == tests[n_]))
+def _only_through(g, a, b, tests, fn: Optional[Fn] = None) -> bool:
+    """Every (flag-feasible, when *fn* is given) path a -> b traverses the establishing edge of one of *tests*
+    ({test node: 'T'|'F'})."""
+    flt = lambda n_, m_, lab: not (n_ in tests and lab == tests[n_])      # noqa: E731
+    if fn is not None:
+        return not flag_can_reach(g, fn, a, b, follow_exc=False, edge_filter=flt)
+    return not g.can_reach(a, b, follow_exc=False, edge_filter=flt)
 
 
 def _truthy_side(e, names: Set[str]) -> Optional[str]:
     """Outcome of test *e* on which one of *names* is known truthy."""
+    if isinstance(e, ast.Subscript) and isinstance(e.value, ast.Name) and isinstance(e.slice, ast.Constant) \
+            and f"{e.value.id}[{e.slice.value}]" in names:
+        e = ast.Name(id=f"{e.value.id}[{e.slice.value}]", ctx=ast.Load())       # pseudo-name of a result component
+    if isinstance(e, ast.Compare) and len(e.ops) == 1 and isinstance(e.left, ast.Subscript) and isinstance(e.left.value, ast.Name) \
+            and isinstance(e.left.slice, ast.Constant) and f"{e.left.value.id}[{e.left.slice.value}]" in names:
+        e = ast.Compare(left=ast.Name(id=f"{e.left.value.id}[{e.left.slice.value}]", ctx=ast.Load()), ops=e.ops,
+                        comparators=e.comparators)
     if isinstance(e, ast.Name):
         return "T" if e.id in names else None
     if isinstance(e, ast.UnaryOp) and isinstance(e.op, ast.Not):
@@ -2023,8 +2097,7 @@ def _truthy_side(e, names: Set[str]) -> Optional[str]:
         c, op = e.comparators[0].value, e.ops[0]
         if c is True:
             return "T" if isinstance(op, (ast.Is, ast.Eq)) else ("F" if isinstance(op, (ast.IsNot, ast.NotEq)) else None)
-        if c is False or c is None:
-            return "F" if isinstance(op, (ast.Is, ast.Eq)) else None
+        # `x is None` / `x is False` failing does not make x truthy (the other falsy value remains possible)
     if isinstance(e, ast.NamedExpr):
         return _truthy_side(e.value, names)
     return None
@@ -2416,13 +2489,56 @@ def rule_dictkeys(run, prog):
                            key_set_size=None, protected=True)
                     continue
                 vs = key_value_set(fn, n.slice, n, tables)
+                if vs is None and fn.cls is not None and fn.cls.name == "Lexer":
+                    # the guards could not be related to the key (e.g. the width of the pop is carried in a local):
+                    # decide by interpreting the sub-parser on every short input over the characters of the table's keys
+                    bad_in = _interp_keyerror(prog, fn, tables[tname])
+                    if bad_in is not None:
+                        run.ob("R-5.7", f"{fn.key}::{tname}[{text(n.slice, 40)}]", bad_in == "",
+                               f"{fn.name} interpreted on {bad_in!r} raises KeyError at {tname}[...]", n, decided_by="interpretation")
+                        continue
                 ok = vs is not None and vs <= keys
                 missing = sorted(vs - keys) if vs is not None else None
                 run.ob("R-5.7", f"{fn.key}::{tname}[{text(n.slice, 40)}]", ok,
                        (f"key(s) {missing} can reach {tname}[...] but are not in the table: KeyError" if vs is not None
                         else f"cannot bound the keys reaching {tname}[...] from the dominating guards"),
                        n, key_set_size=(len(vs) if vs is not None else None))
-    run.require(n_sub >= 6, f"only {n_sub} table subscripts found in the lexer (floor 6)")
+    run.require(n_sub >= 4, f"only {n_sub} table subscripts found in the lexer (floor 4)")
+
+
+_INTERP_MEMO: Dict[str, Optional[str]] = {}
+
+
+def _interp_keyerror(prog, fn: Fn, table) -> Optional[str]:
+    """Interpret the Lexer method on every string of <= 3 characters over the characters of the table's keys (plus a
+    letter and a blank): "" = never a KeyError, an input = the first that raises KeyError, None = not evaluable."""
+    if fn.key in _INTERP_MEMO:
+        return _INTERP_MEMO[fn.key]
+    try:
+        from ..lexsim import LexerSim, Unsupported as _Uns
+    except Exception:
+        return None
+    import itertools
+    alpha = sorted({ch for k in table if isinstance(k, str) for ch in k} | {"a", " "})
+    first = sorted({k[0] for k in table if isinstance(k, str) and k})
+    res: Optional[str] = ""
+    try:
+        for n_ in (1, 2, 3):
+            for head in first:
+                for tail in itertools.product(alpha, repeat=n_ - 1):
+                    src = head + "".join(tail)
+                    out = LexerSim(prog, src + " \n").call(fn.name)
+                    if out.kind == "raise" and "KeyError" in str(out.exc):
+                        res = src
+                        raise StopIteration
+    except StopIteration:
+        pass
+    except _Uns:
+        res = None
+    except Exception:
+        res = None
+    _INTERP_MEMO[fn.key] = res
+    return res
 
 
 def key_value_set(fn: Fn, key_expr, at, tables) -> Optional[Set[str]]:
@@ -2880,7 +2996,21 @@ def trivially_dead_(node):
 def _length_evidence(fn, L: str, at) -> Optional[str]:
     from ..facts import disjuncts
 
+    from ..dataflow import expand_aliases
+    shrinks = any(isinstance(c_, ast.Call) and isinstance(c_.func, ast.Attribute) and c_.func.attr in ("pop", "remove", "clear")
+                  and isinstance(c_.func.value, ast.Name) and c_.func.value.id == L for c_ in walk_fn(fn.node)) \
+        or any(isinstance(c_, ast.Delete) and any(L in text(t_) for t_ in c_.targets) for c_ in walk_fn(fn.node))
+
+    def unalias(c):
+        """`pending = len(L) ... if pending:` -- a local holding the length / truth of the list stands for it, as long
+        as nothing in the function removes elements from the list."""
+        if shrinks:
+            return c
+        return expand_aliases(fn, c, lambda v: isinstance(v, ast.Call) and isinstance(v.func, ast.Name)
+                              and v.func.id in ("len", "bool") and len(v.args) == 1 and text(v.args[0]) == L)
+
     def nonempty_when_true(c) -> bool:
+        c = unalias(c)
         t = text(c)
         if t in (L, f"len({L})", f"bool({L})"):
             return True
@@ -2903,6 +3033,7 @@ def _length_evidence(fn, L: str, at) -> Optional[str]:
         return False
 
     def nonempty_when_false(c) -> bool:
+        c = unalias(c)
         if isinstance(c, ast.UnaryOp) and isinstance(c.op, ast.Not):
             return nonempty_when_true(c.operand)
         if isinstance(c, ast.Compare) and len(c.ops) == 1 and text(c.left) == f"len({L})":
